@@ -499,3 +499,41 @@ def source_hash(objs):
         except Exception as e:
             out[name] = "unavailable"
     return out
+
+
+# --------------------------------------------------------------------------------------------
+# tables regenerated from the implementation (finite decision logic proved by `decide`)
+# --------------------------------------------------------------------------------------------
+import atexit
+_restore = {}
+
+
+def write_table(name, content):
+    """write lean/DimModel/Gen/<name>.lean; returns True when it differs from the committed text.
+    The committed text is restored at exit so that the tree (and other checks) stay buildable."""
+    path = os.path.join(LEAN, "DimModel", "Gen", name + ".lean")
+    old = open(path).read() if os.path.exists(path) else None
+    if old == content:
+        return False
+    if path not in _restore:
+        _restore[path] = old
+    with open(path, "w") as f:
+        f.write(content)
+    return True
+
+
+def _restore_tables():
+    for path, old in _restore.items():
+        if old is None:
+            continue
+        with open(path, "w") as f:
+            f.write(old)
+
+
+atexit.register(_restore_tables)
+
+KINDS = ["b", "i", "u", "f", "O", "U", "S"]
+
+
+def lean_kind(k):
+    return ".%s" % k
